@@ -965,7 +965,7 @@ def pred_client(case, stats):
             e = rc.dec_encap(frame)
             sd = rc.dec_send_data(e['payload'])
             item = sd['items'][1][1]
-            if wrapper:
+            if item != msg and item[:1] == b'\x52':
                 us = rc.dec_unconnected_send(item)
                 seen = {'wrapper': True, 'route_path': us['route_path'], 'send_path': us['send_path'],
                         'message': us['message'].hex()}
